@@ -11,7 +11,7 @@ from spec import grammar
 P = 'C09'
 M1 = True
 ENCODED = ['Reader.__init__/check_printable/peek/prefix/forward/get_mark (str input)', 'Scanner (all fetch_*/scan_* methods, simple-key bookkeeping, indentation stack)',
-           'Parser (all parse_* states, process_directives)', 'via yaml.scan / yaml.parse; Parser alone over a stub token source']
+           'Parser (all parse_* states, process_directives)', 'Scanner.need_more_tokens / stale_possible_simple_keys / next_possible_simple_key as one step from an arbitrary state', 'via yaml.scan / yaml.parse; Parser alone over a stub token source']
 BOUNDS = {'quick': 'every str s with len(s)<=2 over all code points (15 cells by class of s[0]); indicator alphabet len<=4; '
                    'parser alone over every sequence of <=3 tokens of the 18 kinds',
           'thorough': 'len(s)<=3 over all code points; indicator alphabet len<=5; parser alone over <=4 tokens'}
@@ -263,6 +263,63 @@ def parser_alone(n: int, k0: int, k1: int, k2: int, k3: int) -> str:
     return 'ok'
 
 
+def simple_key_step(line: int, index: int, k0_line: int, k0_index: int, k0_tok: int, k0_req: bool, k1_line: int, k1_index: int, k1_tok: int, k1_req: bool,
+                    nkeys: int, taken: int, ntoks: int) -> str:
+    """One step of the simple-key bookkeeping from an ARBITRARY state (unbounded integers): after
+    stale_possible_simple_keys() every surviving candidate is on the current line and at most 1024
+    characters back - which is what bounds the scanner's token look-ahead whatever follows -, a stale
+    *required* key is a ScannerError, and need_more_tokens() asks for more exactly when the queue is
+    empty or its head may still become a key."""
+    from yaml.scanner import SimpleKey, ScannerError
+    ld = yaml.SafeLoader('')
+    ld.line, ld.index, ld.column = line, index, 0
+    ld.tokens_taken = taken
+    m = Mark('x', 0, 0, 0, None, None)
+    ld.tokens = [ScalarToken('t', True, m, m) for _ in range(3)][:ntoks]
+    keys = {}
+    if nkeys >= 1:
+        keys[0] = SimpleKey(k0_tok, k0_req, k0_index, k0_line, 0, m)
+    if nkeys >= 2:
+        keys[1] = SimpleKey(k1_tok, k1_req, k1_index, k1_line, 0, m)
+    ld.possible_simple_keys = keys
+    before = dict(keys)
+    stale0 = k0_line != line or index - k0_index > 1024
+    stale1 = k1_line != line or index - k1_index > 1024
+    must_raise = (nkeys >= 1 and stale0 and k0_req) or (nkeys >= 2 and stale1 and k1_req)
+    try:
+        more = ld.need_more_tokens()
+    except ScannerError:
+        reach()
+        return 'ok' if (must_raise and ntoks > 0) else fail(P, 'SIMPLE-KEY ScannerError although no required key went stale', nkeys=nkeys)
+    except Exception as e:
+        not_a_finding(e)
+        return fail(P, 'simple-key ' + exc_sig(e), nkeys=nkeys)
+    reach()
+    if ntoks == 0:
+        return 'ok' if more else fail(P, 'SIMPLE-KEY an empty queue does not ask for more tokens', nkeys=nkeys)
+    if must_raise:
+        return fail(P, 'SIMPLE-KEY a stale required key was dropped silently', nkeys=nkeys)
+    left = ld.possible_simple_keys
+    for lvl, key in left.items():
+        if key.line != line or index - key.index > 1024:
+            return fail(P, 'SIMPLE-KEY a candidate older than one line / 1024 characters survives (look-ahead is unbounded)', nkeys=nkeys)
+        if before.get(lvl) is not key:
+            return fail(P, 'SIMPLE-KEY table corrupted', nkeys=nkeys)
+    want_left = set()
+    if nkeys >= 1 and not stale0:
+        want_left.add(0)
+    if nkeys >= 2 and not stale1:
+        want_left.add(1)
+    if set(left) != want_left:
+        return fail(P, 'SIMPLE-KEY a live candidate was dropped', nkeys=nkeys)
+    head_may_be_key = any(key.token_number == taken for key in left.values()) and \
+        all(key.token_number >= taken for key in left.values())
+    lowest = min([key.token_number for key in left.values()]) if left else None
+    if bool(more) != (lowest == taken):
+        return fail(P, 'SIMPLE-KEY need_more_tokens() disagrees with "the head of the queue may still become a key"', nkeys=nkeys)
+    return 'ok'
+
+
 def text_jobs(fn, tier, prefix=''):
     L = 2 if tier == 'quick' else 3
     js = [Job(prefix + 'text/empty', fn, [lambda s: len(s) == 0], budget=20, bounds='the empty input')]
@@ -282,6 +339,11 @@ def jobs(tier):
                       [lambda k0, k1, k2, k3, k4, n, _k=k: k0 == _k and 1 <= n <= SN and 0 <= k1 < 11 and 0 <= k2 < 11 and 0 <= k3 < 11 and 0 <= k4 < 11],
                       budget=200 if tier == 'quick' else 1500, exhaust=(tier == 'quick'),
                       bounds='strings of len<=%d over %r starting with %r' % (SN, SOUP, SOUP[k])))
+    for nk in range(3):
+        js.append(Job('simple-key-step/%dkeys' % nk, simple_key_step,
+                      [lambda line, index, k0_line, k0_index, k0_tok, k0_req, k1_line, k1_index, k1_tok, k1_req, nkeys, taken, ntoks, _n=nk:
+                       nkeys == _n and 0 <= ntoks <= 2],
+                      budget=200, bounds='%d candidate key(s); line, index, token numbers, tokens_taken: ALL integers (unbounded); queue of 0..2 tokens' % nk))
     PN = 3 if tier == 'quick' else 4
     for k in range(18):
         js.append(Job('parser/%s' % KINDS[k], parser_alone,
